@@ -108,6 +108,19 @@ def run(ctx):
     # ---------------------------------------------------------------- EDITS: every attribute a hook changes gets its write bit (shared with C28-BITS)
     from . import C28
     C28.bits_rule(ctx, P='C33-EDITS-BITS')
+    # objects created by hooks (also hooks of another database's flush in the same commit) are written by the late flush in SessionCache.commit:
+    # it depends on `cache.modified` alone -- a cache without an open transaction (only read so far) still has to flush what a hook put into it
+    from ..typestate import scenario_edges
+    cm = repo.fn(CORE, 'SessionCache.commit'); g = cg.cfg(cm); crecv = cm.recv
+    fl = nodes_calling(g, lambda c: is_call_to(c, crecv, 'flush'))
+    def late_atom(text, node):
+        if text == crecv + '.modified': return True
+        if text == crecv + '.in_transaction': return False
+        return None
+    ok = bool(fl) and g.must_pass_after(g.entry, fl, exits=[g.exit], edge_ok=scenario_edges(g, cm.node, late_atom, resolve=False))
+    ctx.ob('C33-BEFORE.commit-flushes-whatever-is-modified', cm, fl[0].ast if fl else cm.node, ok,
+           '' if ok else 'SessionCache.commit can finish with cache.modified set and no flush() when no transaction is open yet: an object a hook created in this '
+           'database is never inserted and its own hooks never run')
 
 
 def innermost_loops_with(fn_node, meth):
@@ -117,6 +130,7 @@ def innermost_loops_with(fn_node, meth):
 
 
 MUTANTS = [
+    dict(id='C33-late', file='pony/orm/core.py', fn='SessionCache.commit', old="            if cache.modified: cache.flush()\n            if cache.in_transaction:", new="            if cache.modified and cache.in_transaction: cache.flush()\n            if cache.in_transaction:", expect='C33-BEFORE.commit-flushes'),
     dict(id='C33-m1', file='pony/orm/core.py', fn='Entity.flush', old='            obj._before_save_() # should be inside', new='            pass # should be inside', expect='C33-BEFORE.save'),
     dict(id='C33-m2', file='pony/orm/core.py', fn='Entity._save_', old='        cache.saved_objects.append((obj, obj._status_))\n', new='', expect='C33-AFTER.saved-object'),
     dict(id='C33-m3', file='pony/orm/core.py', fn='Entity.flush', old='            obj._save_()\n        cache.call_after_save_hooks()\n', new='            obj._save_()\n', expect='C33-AFTER.flush'),
